@@ -508,6 +508,12 @@ fn real_read(conn: &mut Connection, id: StreamId, n: Option<u64>) -> Ret {
 pub struct Variant {
     pub a_is_client: bool,
     pub bidi: bool,
+    /// A previous stream of the same kind lives and dies before the stream under test is
+    /// opened, so that the endpoint recycles its per-stream state: 0 = none, 1 = finished, then
+    /// stopped by the receiver after the FIN arrived, 2 = stopped by the receiver, then reset by
+    /// the sender, 3 = reset by the sender and the reset read, 4 (bidi) = like 1 for the reverse
+    /// half as well
+    pub prelude: u8,
 }
 
 pub struct Out {
@@ -542,6 +548,82 @@ pub fn run_seq(base: Instant, v: &Variant, seq: &[Op], verbose: bool) -> Result<
         for n in [CLIENT, SERVER] {
             let ch = if n == CLIENT { p.cch } else { p.sch().unwrap() };
             p.w.nodes[n].conns.get_mut(&ch).unwrap().app.events.clear();
+        }
+        if v.prelude != 0 {
+            let pid = {
+                let (c, _) = conn_of(&mut p, a);
+                c.streams().open(dir).expect("open prelude")
+            };
+            let now = p.w.now();
+            let _ = now;
+            // A writes 5 bytes
+            {
+                let (c, _) = conn_of(&mut p, a);
+                let _ = c.send_stream(pid).write(&[1, 2, 3, 4, 5]);
+                if v.prelude == 1 || v.prelude == 4 {
+                    let _ = c.send_stream(pid).finish();
+                }
+                if v.prelude == 3 {
+                    let _ = c.send_stream(pid).reset(VarInt::from_u32(3));
+                }
+            }
+            let (_, cha) = conn_of(&mut p, a);
+            p.w.settle_conn(a, cha);
+            flush(&mut p, a);
+            // B accepts; stops / reads the reset
+            {
+                let (c, _) = conn_of(&mut p, b);
+                let _ = c.streams().accept(dir);
+                match v.prelude {
+                    1 | 2 | 4 => {
+                        let _ = c.recv_stream(pid).stop(VarInt::from_u32(4));
+                    }
+                    _ => {
+                        let mut rs = c.recv_stream(pid);
+                        let r = rs.read(true);
+                        if let Ok(mut ch) = r {
+                            while let Ok(Some(_)) = ch.next(usize::MAX) {}
+                            let _ = ch.finalize();
+                        };
+                    }
+                }
+                if v.bidi {
+                    // the reverse half: B finishes it at once
+                    let _ = c.send_stream(pid).write(&[9]);
+                    let _ = c.send_stream(pid).finish();
+                }
+            }
+            let (_, chb) = conn_of(&mut p, b);
+            p.w.settle_conn(b, chb);
+            flush(&mut p, b);
+            {
+                let (c, _) = conn_of(&mut p, a);
+                if v.prelude == 2 {
+                    let _ = c.send_stream(pid).reset(VarInt::from_u32(3));
+                }
+                if v.bidi {
+                    if v.prelude == 4 {
+                        // A stops the (finished) reverse half without reading it
+                        let _ = c.recv_stream(pid).stop(VarInt::from_u32(6));
+                    } else {
+                        let mut rs = c.recv_stream(pid);
+                        let r = rs.read(true);
+                        if let Ok(mut ch) = r {
+                            while let Ok(Some(_)) = ch.next(usize::MAX) {}
+                            let _ = ch.finalize();
+                        };
+                    }
+                }
+            }
+            p.w.settle_conn(a, cha);
+            for _ in 0..3 {
+                flush(&mut p, a);
+                flush(&mut p, b);
+            }
+            for n in [CLIENT, SERVER] {
+                let ch = if n == CLIENT { p.cch } else { p.sch().unwrap() };
+                p.w.nodes[n].conns.get_mut(&ch).unwrap().app.events.clear();
+            }
         }
         // open
         let id = {
@@ -798,17 +880,29 @@ pub fn main(args: &Args) -> ! {
     let (du, db) = if thorough { (6, 5) } else { (5, 4) };
     rep.rule = format!("Explicit enumeration of every operation sequence of length {du} (unidirectional stream) / {db} (bidirectional stream) after open(), over the alphabets {:?} / {:?}, for both initiators, executed on a real established connection pair with a zero-latency link whose two directions are flushed only by the explicit network operations AB / BA (so acknowledgements and STOP_SENDING can be withheld). After EVERY operation the real return value must equal the reference model's (write/finish/reset/stopped/set_priority/accept/read/stop/received_reset), the set of StreamEvents emitted must equal the model's (Finished, Stopped, Opened exact; Readable never spurious), and remote_open_streams() must change exactly when both halves of the remote stream are terminal. States = distinct (return value, event) traces; transitions = operations compared.", OPS_UNI, OPS_BI);
     let mut tasks: Vec<(usize, Vec<Op>)> = vec![];
-    let variants = vec![
-        Variant { a_is_client: true, bidi: false },
-        Variant { a_is_client: false, bidi: false },
-        Variant { a_is_client: true, bidi: true },
-        Variant { a_is_client: false, bidi: true },
+    let mut variants = vec![
+        Variant { a_is_client: true, bidi: false, prelude: 0 },
+        Variant { a_is_client: false, bidi: false, prelude: 0 },
+        Variant { a_is_client: true, bidi: true, prelude: 0 },
+        Variant { a_is_client: false, bidi: true, prelude: 0 },
     ];
+    // the stream under test is the second of its kind: the first one ended in a way that leaves
+    // its recycled state "dirty" (stopped, reset, unread)
+    for bidi in [false, true] {
+        for a_is_client in [true, false] {
+            for prelude in 1..=(if bidi { 4 } else { 3 }) {
+                variants.push(Variant { a_is_client, bidi, prelude });
+            }
+        }
+    }
     for (vi, v) in variants.iter().enumerate() {
         let (ops, mut d): (&[Op], usize) = if v.bidi { (&OPS_BI, db) } else { (&OPS_UNI, du) };
         // quick tier: the server-initiated variants run one level shallower
         if !thorough && !v.a_is_client {
             d -= 1;
+        }
+        if v.prelude != 0 {
+            d -= if thorough { 1 } else { 2 };
         }
         for s in enumerate(ops, d) {
             tasks.push((vi, s));
@@ -822,14 +916,14 @@ pub fn main(args: &Args) -> ! {
         rep.evaluations += 1;
         rep.transitions += s.len() as u64;
         let v = &variants[*vi];
-        let rj = json!({"check":"c11","a_is_client":v.a_is_client,"bidi":v.bidi,"seq":s.iter().map(|o| format!("{o:?}")).collect::<Vec<_>>()});
+        let rj = json!({"check":"c11","a_is_client":v.a_is_client,"bidi":v.bidi,"prelude":v.prelude,"seq":s.iter().map(|o| format!("{o:?}")).collect::<Vec<_>>()});
         match r {
-            Err(e) => rep.violation(Violation { signature: "panic".into(), what: format!("initiator={} bidi={} seq={s:?}: panic: {e}", if v.a_is_client { "client" } else { "server" }, v.bidi), replay: rj }),
+            Err(e) => rep.violation(Violation { signature: "panic".into(), what: format!("initiator={} bidi={} previous-stream-life={} seq={s:?}: panic: {e}", if v.a_is_client { "client" } else { "server" }, v.bidi, v.prelude), replay: rj }),
             Ok(o) => {
                 sigs.insert((vi, o.sig));
                 rep.distinct.insert(o.sig ^ (*vi as u64));
                 for (sig, what) in &o.viol {
-                    rep.violation(Violation { signature: sig.clone(), what: format!("initiator={} bidi={}: {what}", if v.a_is_client { "client" } else { "server" }, v.bidi), replay: rj.clone() });
+                    rep.violation(Violation { signature: sig.clone(), what: format!("initiator={} bidi={} previous-stream-life={}: {what}", if v.a_is_client { "client" } else { "server" }, v.bidi, v.prelude), replay: rj.clone() });
                 }
             }
         }
@@ -864,7 +958,7 @@ pub fn main(args: &Args) -> ! {
         rep.transitions += n;
     }
     rep.states = sigs.len() as u64;
-    rep.part("sequences", json!({"variants": 4, "depth_uni": du, "depth_bidi": db, "sequences": total, "executed": res.len(), "capped": capped}));
+    rep.part("sequences", json!({"variants": variants.len(), "depth_uni": du, "depth_bidi": db, "sequences": total, "executed": res.len(), "capped": capped}));
     rep.sample(json!({"initiator":"client","bidi":false,"seq":["Write","AB","Stop","BA","Write","Finish"],"meaning":"client writes 3 bytes, they are delivered, the server application stops the stream, STOP_SENDING is delivered; the next write and finish must both report Stopped(9) and exactly one Stopped event must have been emitted"}));
     rep.assumptions = vec![
         "loss is not part of this check (C01/C02 own it); the two network operations deliver everything queued in one direction and let the receiver's delayed-ACK timer run".into(),
@@ -916,7 +1010,7 @@ fn replay(args: &Args) -> ! {
     }
     let v: Value = serde_json::from_str(&std::fs::read_to_string(path).unwrap_or_else(|e| machinery(&format!("{e}")))).unwrap_or_else(|e| machinery(&format!("{e}")));
     let r = &v["replay"];
-    let var = Variant { a_is_client: r["a_is_client"].as_bool().unwrap_or(true), bidi: r["bidi"].as_bool().unwrap_or(false) };
+    let var = Variant { a_is_client: r["a_is_client"].as_bool().unwrap_or(true), bidi: r["bidi"].as_bool().unwrap_or(false), prelude: r["prelude"].as_u64().unwrap_or(0) as u8 };
     let all: Vec<Op> = OPS_BI.to_vec();
     let seq: Vec<Op> = r["seq"].as_array().unwrap().iter().map(|s| *all.iter().find(|o| format!("{o:?}") == s.as_str().unwrap()).unwrap()).collect();
     match run_seq(Instant::now(), &var, &seq, true) {
